@@ -493,6 +493,8 @@ func funcType(r *Reg) reflect.Type {
 }
 
 // makeCtor returns the value to pass to Add* for registration r.
+//
+//go:norace
 func (h *H) makeCtor(r *Reg) any {
 	if r.Form == FInstance {
 		pv := reflect.New(r.Outs[0].Concrete.RT().Elem())
@@ -509,6 +511,7 @@ func (h *H) makeCtor(r *Reg) any {
 	return fn.Interface()
 }
 
+//go:norace
 func (h *H) recArgs(r *Reg, args []reflect.Value) []ArgRec {
 	recs := make([]ArgRec, len(r.Deps))
 	for i, d := range r.Deps {
@@ -523,6 +526,7 @@ func (h *H) recArgs(r *Reg, args []reflect.Value) []ArgRec {
 	return recs
 }
 
+//go:norace
 func (h *H) recArg(d Dep, v reflect.Value) ArgRec {
 	switch d.Builtin {
 	case BContext, BScope, BProvider:
@@ -674,6 +678,7 @@ func (h *H) newOut(r *Reg, i int, inv *Invocation) reflect.Value {
 
 var asOpts = []godi.AddOption{godi.As[I0](), godi.As[I1](), godi.As[I2](), godi.As[I3]()}
 
+//go:norace
 func (h *H) regOpts(r *Reg) []godi.AddOption {
 	var opts []godi.AddOption
 	if r.Name != "" {
@@ -688,6 +693,7 @@ func (h *H) regOpts(r *Reg) []godi.AddOption {
 	return opts
 }
 
+//go:norace
 func (h *H) addReg(c godi.Collection, r *Reg) error {
 	fn := h.makeCtor(r)
 	opts := h.regOpts(r)
